@@ -169,6 +169,9 @@ class ValueGen:
                     first_size = sz
                 elif sz != first_size:
                     # repeat a size-compatible element instead
+                    if not out:
+                        first_size = None
+                        continue
                     x = copy.deepcopy(r.choice(out))
                     sz = first_size
             if byte_limit is not None and total + sz > byte_limit:
